@@ -1,4 +1,5 @@
 #![cfg_attr(feature = "strict", deny(warnings))]
+#![allow(unexpected_cfgs)]
 
 pub mod auth;
 pub mod errors;
@@ -18,3 +19,6 @@ pub use async_read::CopyReader;
 pub use output_bytes::output_bytes;
 
 pub mod constant_declarations;
+
+#[cfg(all(xet_verif, not(target_family = "wasm")))]
+pub mod verif;
